@@ -477,8 +477,102 @@ def acceptance(ctx, mode, cases):
                      prop="HARNESS")
     if not phase2:
         SerialHugr._pydantic_rebuild(cfg, force=True)
+    default_agreement(ctx, mode, model, {"hugr": schema, "package": schema, "extension": schema, "testing": tschema},
+                      cases, val)
     if ctx.shard == 0:
         validator_keys(ctx, mode, model, {"hugr": schema, "package": schema, "extension": schema, "testing": tschema})
+
+
+_DEF_COVER: dict = {}
+
+
+def default_agreement(ctx, mode, models, schemas, cases, validators):
+    """"same defaults": where the published definition of a model gives a property a default, the decoder reads a
+    document that leaves the key out as if the key were there with that default.  For unmutated corpus documents, up to
+    three (class, property) positions per document (least visited first): the key is removed, the document decoded, and
+    the attribute the decoder filled in is compared with the published default."""
+    import enum
+
+    from pydantic import BaseModel, RootModel, ValidationError
+
+    def dump(v):
+        if isinstance(v, BaseModel):
+            return v.model_dump(mode="json", by_alias=True)
+        if isinstance(v, enum.Enum):
+            return v.value
+        if isinstance(v, (list, tuple)):
+            return [dump(x) for x in v]
+        if isinstance(v, (set, frozenset)):
+            return sorted(dump(x) for x in v)
+        if isinstance(v, dict):
+            return {k: dump(x) for k, x in v.items()}
+        return v
+
+    def walk(inst, j, acc, jpath, defs, out):
+        if isinstance(inst, RootModel):
+            walk(inst.root, j, [*acc, ("attr", "root")], jpath, defs, out)
+        elif isinstance(inst, BaseModel):
+            if not isinstance(j, dict):
+                return
+            cls = type(inst)
+            d = defs.get(cls.__name__)
+            fields = cls.model_fields
+            by_key = {(f.alias or n): n for n, f in fields.items()}
+            if d is not None and d.get("title", cls.__name__) == cls.__name__:
+                for pname, ps in (d.get("properties") or {}).items():
+                    if "default" in ps and pname in by_key and "const" not in ps:   # (tags are decided by the unions)
+                        out.append((acc, jpath, cls.__name__, pname, by_key[pname], ps["default"]))
+            for key, name in by_key.items():
+                if key in j:
+                    walk(getattr(inst, name), j[key], [*acc, ("attr", name)], [*jpath, key], defs, out)
+        elif isinstance(inst, (list, tuple)) and isinstance(j, list):
+            for i, (a, b) in enumerate(zip(inst, j)):
+                walk(a, b, [*acc, ("idx", i)], [*jpath, i], defs, out)
+        elif isinstance(inst, dict) and isinstance(j, dict):
+            for k in j:
+                if k in inst:
+                    walk(inst[k], j[k], [*acc, ("key", k)], [*jpath, k], defs, out)
+
+    def follow(inst, acc):
+        for how, x in acc:
+            inst = getattr(inst, x) if how == "attr" else inst[x]
+        return inst
+
+    for case in cases:
+        if case["mutation"] != "none":
+            continue
+        kind, doc = case["kind"], case["doc"]
+        M = models[kind]
+        try:
+            inst = M.model_validate_json(json.dumps(doc))
+        except ValidationError:
+            continue
+        cands: list = []
+        walk(inst, doc, [], [], schemas[kind]["$defs"], cands)
+        cands.sort(key=lambda c: (_DEF_COVER.get((c[2], c[3]), 0), len(c[1])))
+        for acc, jpath, cname, pname, fname, default in cands[:3]:
+            _DEF_COVER[(cname, pname)] = _DEF_COVER.get((cname, pname), 0) + 1
+            d1 = copy.deepcopy(doc)
+            tgt = d1
+            for k in jpath:
+                tgt = tgt[k]
+            tgt.pop(pname, None)
+            ctx.count("monitor:default-agreement")
+            rec = {"kind": kind, "mutation": f"default[{cname}.{pname}]", "mode": mode, "rng": case["rng"]}
+            try:
+                inst1 = M.model_validate_json(json.dumps(d1))
+                got = dump(getattr(follow(inst1, acc), fname))
+            except Exception as e:  # noqa: BLE001
+                if not validators[kind].is_valid(d1):
+                    ctx.count("default-agreement:both-reject-without-the-key")
+                    continue
+                ctx.disc(None, f"default-disagreement[{cname}.{pname}]", rec, {"published default": default},
+                         f"{type(e).__name__}: {str(e)[:160]}", stratum="acceptance", case=rec)
+                continue
+            if got != default and not (isinstance(default, list) and sorted(map(repr, got or [])) == sorted(map(repr, default))):
+                ctx.disc(None, f"default-disagreement[{cname}.{pname}]", rec, {"published default": default},
+                         {"decoder read": got}, stratum="acceptance", case=rec)
+    ctx.extra["default_positions_" + mode] = len(_DEF_COVER)
 
 
 def validator_keys(ctx, mode, models, schemas):
@@ -591,6 +685,12 @@ def gen_cases(ctx, n):
             cases.append({"kind": kind, "mutation": mop, "doc": d, "expect": [es, el], "rng": ["rt", i], "at": at})
             ctx.case("acceptance", {"kind": kind, "mutation": mop, "rng": ["rt", i], "at": at}, True)
     ctx.extra["retype_position_classes"] = len(prefer) - 1
+    # unmutated documents for the default-agreement monitor (and as accept / accept cases of the differential)
+    for i in ctx.mine(ctx.n(400, 10000)):
+        r = ctx.rng("da", i)
+        kind, doc = corpus_doc(r, want=["extension", "testing", None, None][i % 4])
+        cases.append({"kind": kind, "mutation": "none", "doc": doc, "expect": [True, True], "rng": ["da", i]})
+        ctx.case("acceptance", {"kind": kind, "mutation": "none", "rng": ["da", i]}, True)
     return cases
 
 
@@ -606,6 +706,11 @@ def replay(ctx, rec):
     case = rec.get("case") or {}
     if rec.get("stratum") == "acceptance" and "rng" in case:
         r = ctx.rng(*case["rng"])
+        if case["rng"][0] == "da":
+            kind, doc = corpus_doc(r, want=["extension", "testing", None, None][case["rng"][1] % 4])
+            acceptance(ctx, case.get("mode", "strict"),
+                       [{"kind": kind, "mutation": "none", "doc": doc, "expect": [True, True], "rng": case["rng"]}])
+            return
         if case["rng"][0] == "ff":
             kind, doc = corpus_doc(r, want="testing" if case["rng"][1] % 3 else "extension")
             mop, d, es, el = mutate(r, kind, doc, force=_ff_force(case["rng"][1]))
